@@ -46,6 +46,7 @@ func TestVerifC19FLP(t *testing.T) {
 			t.Fatalf("Encode: %v", err)
 		}
 		vlib.Eval(sub)
+		vlib.Class(sub, c19wb.ChunkClass(total, chunk))
 		var edits []c19wb.Edit
 		label := "valid"
 		if rapid.IntRange(0, 4).Draw(t, "invalid") > 0 {
